@@ -465,7 +465,8 @@ pub fn check_c03(ix: &Ix<'_>, v: &mut Vec<Violation>) {
             continue;
         };
         let first = acks.iter().filter(|a| a.pkt.pid() == Some(pid) && matches!(a.pkt, Pkt::PubAck(_) | Pkt::PubRec(_))).collect::<Vec<_>>();
-        let comps = acks.iter().filter(|a| a.pkt.pid() == Some(pid) && matches!(a.pkt, Pkt::PubComp(_))).collect::<Vec<_>>();
+        // (a PUBCOMP carrying Packet-Identifier-not-found, 0x92, refuses a PUBREL: only success ones count)
+        let comps = acks.iter().filter(|a| a.pkt.pid() == Some(pid) && matches!(&a.pkt, Pkt::PubComp(x) if x.code < 0x80)).collect::<Vec<_>>();
         if first.len() > 1 {
             viol(v, "C03", format!("C03/duplicate-ack/{role}/q{}", p.qos), format!("PUBLISH #{pid}: {} PUBACK/PUBREC packets", first.len()), first[1].seq);
         }
